@@ -118,7 +118,7 @@ def run_check(prop, tier, seed, jobs=None):
             for v in extra.get("violations_list", []):
                 all_viol.append(v)
             per_task.append({k: extra.get(k) for k in ("name", "queries", "solver_s", "obligations", "discharged",
-                                                        "bounds", "result")})
+                                                        "bounds", "result", "second_solver")})
             if len(samples) < 8 and extra.get("sample") is not None:
                 samples.append({"lemma": extra["name"], "obligation": extra["sample"]})
 
